@@ -22,14 +22,19 @@ package types
 //@ requires [updates_present] forall j in [0, len(updates)) :: updates[j] != nil
 //@ requires [lock_free_on_entry] !locked()
 //@ ensures [lock_released_on_return] !locked()
+//@ ensures [the_whole_batch_is_applied_in_one_critical_section] lockcount() == old(lockcount()) + 1
+//@ loop 0 "for _, marketPriceUpdate := range updates"
+//@ loop 0 invariant [still_in_the_one_critical_section] locked() && lockcount() == old(lockcount()) + 1
 
 //@ func (mte *MarketToExchangePrices).GetValidMedianPrices(marketParams, readTime) (prices)
 //@ requires [receiver_present] mte != nil
 //@ requires [stored_entries_present] forall m int :: has(mte.marketToExchangePrices, m) ==> mte.marketToExchangePrices[m] != nil && forall e string :: has(mte.marketToExchangePrices[m].exchangeToPriceTimestamp, e) ==> mte.marketToExchangePrices[m].exchangeToPriceTimestamp[e] != nil
 //@ requires [maximum_age_non_negative] mte.maxPriceAge >= 0
+//@ ensures [all_markets_are_read_in_one_critical_section] lockcount() == old(lockcount()) + 1
 //@ ensures [freshness_cutoff_is_the_read_time_minus_the_maximum_age] called(GetValidPrices) ==> arg(GetValidPrices, cutoffTime) == readTime - mte.maxPriceAge
 //@ loop 0 "for _, marketParam := range marketParams"
 //@ loop 0 invariant [freshness_cutoff_is_the_read_time_minus_the_maximum_age] called(GetValidPrices) ==> arg(GetValidPrices, cutoffTime) == readTime - mte.maxPriceAge
+//@ loop 0 invariant [still_in_the_one_critical_section] locked() && lockcount() == old(lockcount()) + 1
 //@ loop 0 invariant [max_age_unchanged] mte.maxPriceAge == old(mte.maxPriceAge)
 //@ loop 0 invariant [stored_entries_present] forall m int :: has(mte.marketToExchangePrices, m) ==> mte.marketToExchangePrices[m] != nil && forall e string :: has(mte.marketToExchangePrices[m].exchangeToPriceTimestamp, e) ==> mte.marketToExchangePrices[m].exchangeToPriceTimestamp[e] != nil
 //@ requires [lock_free_on_entry] !locked()
@@ -39,13 +44,13 @@ package types
 //@ requires [receiver_present] etp != nil && etp.exchangeToPriceTimestamp != nil
 //@ requires [updates_present] forall j in [0, len(updates)) :: updates[j] != nil && updates[j].LastUpdateTime != nil
 //@ requires [caller_holds_the_cache_lock] locked()
-//@ ensures [lock_still_held] locked()
+//@ ensures [lock_still_held] locked() && lockcount() == old(lockcount())
 
 //@ func (etp *ExchangeToPrice).GetValidPrices(cutoffTime) (prices)
 //@ requires [receiver_present] etp != nil
 //@ requires [stored_entries_present] forall e string :: has(etp.exchangeToPriceTimestamp, e) ==> etp.exchangeToPriceTimestamp[e] != nil
 //@ requires [caller_holds_the_cache_lock] locked()
-//@ ensures [lock_still_held] locked()
+//@ ensures [lock_still_held] locked() && lockcount() == old(lockcount())
 //@ ensures [only_fresh_stored_prices_are_returned] forall j in [0, len(prices)) :: exists e string :: has(etp.exchangeToPriceTimestamp, e) && etp.exchangeToPriceTimestamp[e].LastUpdateTime >= cutoffTime && prices[j] == etp.exchangeToPriceTimestamp[e].Price
 //@ ensures [reads_only] forall e string :: (has(etp.exchangeToPriceTimestamp, e) <==> old(has(etp.exchangeToPriceTimestamp, e))) && etp.exchangeToPriceTimestamp[e] == old(etp.exchangeToPriceTimestamp[e])
 //@ loop 0 "for exchangeId, priceTimestamp := range etp.exchangeToPriceTimestamp"
